@@ -195,10 +195,10 @@ for chunk_i in range(0, len(allc), PER):
         if tree is not None:
             divisors(tree, ds)
         nz = " && ".join("%s != 0" % go(d) for d in ds) or "true"
-        nzgo = "verif.And(" + ", verif.And(".join("%s != 0" % go(d) for d in ds) + ", true" + ")" * len(ds) if ds else "true"
+        nzgo = "".join("verif.Assume(%s != 0); " % go(d) for d in reversed(ds)) + "return true"
         kindn = {'int': 0, 'float': 1, 'bool': 2}[kind]
         ref = {'int': 'refI: func(f *Fact) int64 { return %s }', 'float': 'refF: func(f *Fact) float64 { return %s }', 'bool': 'refB: func(f *Fact) bool { return %s }'}[kind] % goexpr
-        gofile.append('\t\t{tag: %s, rule: "%s", text: %s, kind: %d, %s, nz: func(f *Fact) bool { return %s }},' % (
+        gofile.append('\t\t{tag: %s, rule: "%s", text: %s, kind: %d, %s, nz: func(f *Fact) bool { %s }},' % (
             '"' + tag + '"', rule, '"' + text.replace('\\', '\\\\').replace('"', '\\"').replace('\n', '\\n') + '"', kindn, ref, nzgo))
         if kind == 'bool':
             # the same expression as a rule condition
